@@ -1,6 +1,7 @@
 (* Properties/C12.v — C12: keys never interfere; the order-preserving codec round-trips.
    This file contains only the property theorems (closed by [exact]) and non-vacuity examples. *)
-From ZV Require Import Common.Bytes Codec.Consts Codec.MemCmp Codec.Keys Codec.RangeOps Codec.HIndex Codec.Proofs.
+From ZV Require Import Common.Bytes Codec.Consts Codec.MemCmp Codec.Keys Codec.RangeOps Codec.HIndex Codec.Proofs Codec.Isolation.
+From ZV Require Data.Base Data.Run.
 Open Scope N_scope.
 
 (* ---------- (a) the memcomparable codec: byte strings ---------- *)
@@ -375,6 +376,54 @@ Theorem C12_hindex_value_range : forall t n v v' pk, int64_ok v -> int64_ok v' -
 Proof. exact hset_index_number_value_range. Qed.
 Print Assumptions C12_hindex_value_range.
 
+(* ---------- (d) isolation of (type, table, key), down to the engine's byte keys ---------- *)
+(* over the data builder's Map model (coq/Data, read-only): see Codec/Isolation.v *)
+
+(* the byte encoding of Map's structured keys (meta, element, score-index, sequence, string keys; versioned
+   collection keys under wait_compact) is injective on the keys Map produces *)
+Theorem C12_map_keys_bytes_injective : forall compact score_bits (score_dom : Data.Base.score -> Prop),
+  (forall s, score_dom s -> float_ok (score_bits s)) ->
+  (forall a b, score_dom a -> score_dom b -> float_norm (score_bits a) = float_norm (score_bits b) -> a = b) ->
+  forall a b ka, mkey_ok compact score_dom a -> mkey_ok compact score_dom b ->
+  mkey_bytes compact score_bits a = Some ka -> mkey_bytes compact score_bits b = Some ka -> a = b.
+Proof. exact mkey_bytes_inj. Qed.
+Print Assumptions C12_map_keys_bytes_injective.
+
+(* Map-level frame: every command of Data.Run.cmd (hash, set, zset, list, kv; both expiry policies) leaves
+   the record of every (type, "table:key") it does not address unchanged *)
+Theorem C12_map_step_frame : forall compact ts c s,
+  let s' := fst (Data.Run.map_step compact ts c s) in
+  (forall k, ~ In (hash_type, k) (cmd_targets c) -> rec_hash s' k = rec_hash s k) /\
+  (forall k, ~ In (set_type, k) (cmd_targets c) -> rec_set s' k = rec_set s k) /\
+  (forall k, ~ In (zset_type, k) (cmd_targets c) -> rec_zset s' k = rec_zset s k) /\
+  (forall k, ~ In (list_type, k) (cmd_targets c) -> rec_list s' k = rec_list s k) /\
+  (forall k, ~ In (kv_type, k) (cmd_targets c) -> rec_kv s' k = rec_kv s k).
+Proof. exact map_step_frame. Qed.
+Print Assumptions C12_map_step_frame.
+
+(* the byte-keyed engine (image of the structured map under the codec) is a function of the byte key ... *)
+Theorem C12_engine_functional : forall compact score_bits (score_dom : Data.Base.score -> Prop),
+  (forall s, score_dom s -> float_ok (score_bits s)) ->
+  (forall a b, score_dom a -> score_dom b -> float_norm (score_bits a) = float_norm (score_bits b) -> a = b) ->
+  forall s b v v', engine compact score_bits score_dom s b v -> engine compact score_bits score_dom s b v' -> v = v'.
+Proof. exact engine_functional. Qed.
+Print Assumptions C12_engine_functional.
+
+(* ... and a command leaves the content under every engine byte key owned by another (type, table:key) unchanged *)
+Theorem C12_engine_frame : forall compact score_bits (score_dom : Data.Base.score -> Prop),
+  (forall s, score_dom s -> float_ok (score_bits s)) ->
+  (forall a b, score_dom a -> score_dom b -> float_norm (score_bits a) = float_norm (score_bits b) -> a = b) ->
+  forall ts c s b v k, mkey_ok compact score_dom k -> mkey_bytes compact score_bits k = Some b ->
+  ~ In (mkey_owner k) (cmd_targets c) ->
+  (engine compact score_bits score_dom s b v <->
+   engine compact score_bits score_dom (fst (Data.Run.map_step compact ts c s)) b v).
+Proof.
+  intros compact sb sd H1 H2 ts c s b v k Hk Eb Hn. split.
+  - now apply (engine_frame compact sb sd H1 H2 ts c s b v k).
+  - now apply (engine_frame_rev compact sb sd H1 H2 ts c s b v k).
+Qed.
+Print Assumptions C12_engine_frame.
+
 (* ---------- non-vacuity ---------- *)
 Example C12_ex_bytes : encode_bytes [1; 2; 3] = [1; 2; 3; 0; 0; 0; 0; 0; 250] /\
   encode_bytes [1; 2; 3; 4; 5; 6; 7; 8] = [1; 2; 3; 4; 5; 6; 7; 8; 255; 0; 0; 0; 0; 0; 0; 0; 0; 247].
@@ -384,5 +433,9 @@ Example C12_ex_wf : wf_ekey (KColl 22 [116] [107; 58; 107] [102]) /\ wf_ekey (KZ
 Proof.
   repeat split; try (vm_compute; reflexivity); try (intros [H|[]]; discriminate H).
 Qed.
+Example C12_ex_score_hyps :
+  (forall s, ex_score_dom s -> float_ok (ex_score_bits s)) /\
+  (forall a b, ex_score_dom a -> ex_score_dom b -> float_norm (ex_score_bits a) = float_norm (ex_score_bits b) -> a = b).
+Proof. exact score_hypotheses_satisfiable. Qed.
 Example C12_ex_float_ok : float_ok 13830554455654793216 (* -0.5 *) /\ int64_ok (-9223372036854775808).
 Proof. split; [split; vm_compute; reflexivity|unfold int64_ok; lia]. Qed.
